@@ -195,7 +195,7 @@ def check_partition(ctx):
                 hi = canon(r.args[1], {gname: 'G'}) if len(r.args) == 2 else None
                 names = canon(z.args[1], {gname: 'G'})
                 st = '%s: zip(range(%s, %s), %s)' % (mname, lo, hi, names)
-                if lo == 'G[0][0]' and hi == '(G[(-1)][0] + 1)' and names == '[_v0[1] for _v0 in G]':
+                if lo == 'G[0][0]' and hi == '(G[(-1)][0] + 1)' and names in ('[_v0[1] for _v0 in G]', '(_v0[1] for _v0 in G)', 'list((_v0[1] for _v0 in G))', 'tuple((_v0[1] for _v0 in G))'):
                     ctx.holds(rule, fi, st, 'one block per member of the run, indexed by its position', z.lineno, clause='c')
                 else:
                     ctx.violation(rule, fi, st, 'the indices emitted do not cover exactly the positions of the run (expected range(group[0][0], group[-1][0] + 1) zipped with the run\'s names)', z.lineno, clause='c')
@@ -607,6 +607,15 @@ def find_groupby_key(func, src):
     return None
 
 
+def _same_sequence(v, name):
+    if isinstance(v, ast.Call) and isinstance(v.func, ast.Name) and v.func.id in ('list', 'tuple') and len(v.args) == 1 and not v.keywords:
+        return isinstance(v.args[0], ast.Name) and v.args[0].id == name
+    if isinstance(v, ast.ListComp) and len(v.generators) == 1 and not v.generators[0].ifs and isinstance(v.generators[0].target, ast.Name) \
+            and isinstance(v.elt, ast.Name) and v.elt.id == v.generators[0].target.id:
+        return isinstance(v.generators[0].iter, ast.Name) and v.generators[0].iter.id == name
+    return False
+
+
 def helper_runs_verdict(repo, cg, src):
     """src = self.<helper>(group): every return of the helper is a list of (endianness, run) pairs;
     -> (True, text) when each return is visibly runs of a groupby keyed on is_bigendian or singletons
@@ -729,6 +738,8 @@ def check_options(ctx):
             if isinstance(n, ast.Assign) and isinstance(n.targets[0], ast.Attribute) and n.targets[0].attr == opt and canon(n.targets[0].value) == 'self':
                 if isinstance(n.value, ast.Name) and n.value.id == opt:
                     ok = True
+                elif _same_sequence(n.value, opt):
+                    ok = True           # list(opt) / tuple(opt) / [x for x in opt]: the same entries in the same order
                 elif any(isinstance(x, ast.Name) and x.id == opt for x in ast.walk(n.value)):
                     derived = n
                 else:
